@@ -60,7 +60,7 @@ def case(item):
 
 
 def cases_for(tier):
-    cs = streams.bound01() + streams.sizes_lengths() + streams.big_tiles(tier == "thorough")
+    cs = streams.bound01() + streams.sizes_lengths() + streams.big_tiles(tier == "thorough") + streams.tile_grids(tier == "thorough")
     if tier == "thorough":
         cs += streams.bound01(sizes=((66, 66),), contents=("noise", "flat"))
         cs += streams.cross_depth_sb_pipe_preset()
